@@ -18,19 +18,19 @@ import (
 // initial tree -> sync -> edits -> sync (observed) -> edits -> sync ...
 
 type roundObs struct {
-	Edits  []string
-	Old    *tree.Tree // dest before the round
-	Src    *tree.Tree // source view of the round
-	SrcF   *tree.Tree // source view as rewritten by the receiver's Filter (== Src without one)
+	Edits []string
+	Old   *tree.Tree // dest before the round
+	Src   *tree.Tree // source view of the round
+	SrcF  *tree.Tree // source view as rewritten by the receiver's Filter (== Src without one)
 	// SizeOff: announced size minus number of bytes sent, for the paths where they differ
 	SizeOff map[string]int64
-	New    *tree.Tree // dest after the round
-	Stats  []*types.Stat
-	Reqs   []string // requested paths, in order
-	ReqIDs []uint32
-	Notes  []note
-	Differ fsutil.DiffType
-	Err    string
+	New     *tree.Tree // dest after the round
+	Stats   []*types.Stat
+	Reqs    []string // requested paths, in order
+	ReqIDs  []uint32
+	Notes   []note
+	Differ  fsutil.DiffType
+	Err     string
 }
 
 type histOpt struct {
